@@ -372,7 +372,7 @@ impl<'a> Walk<'a> {
 
         match fs::read_dir(path.to_path_buf()) {
             Ok(rd) => {
-                for entry in Self::sorted_entries(path, rd) {
+                for entry in self.sorted_entries(path, rd) {
                     let gitignore = gitignore.clone();
                     scope.spawn(move |s| {
                         self.visit_entry(entry, dev, s, level + 1, gitignore, state)
@@ -398,12 +398,19 @@ impl<'a> Walk<'a> {
     /// Sorts dir entries so that regular files are at the end.
     /// Because each worker's queue is a LIFO, the files would be picked up first and the
     /// dirs would be on the other side, amenable for stealing by other workers.
-    fn sorted_entries(parent: Path, rd: ReadDir) -> impl Iterator<Item = Entry> {
+    fn sorted_entries(&self, parent: Path, rd: ReadDir) -> impl Iterator<Item = Entry> {
         let mut files = vec![];
         let mut links = vec![];
         let mut dirs = vec![];
         let path = Arc::new(parent);
-        let mut entries: Vec<DirEntry> = rd.filter_map(|e| e.ok()).collect();
+        let mut entries: Vec<DirEntry> = rd
+            .filter_map(|e| {
+                e.map_err(|e| {
+                    self.log_warn(format!("Failed to read dir {}: {}", path.display(), e))
+                })
+                .ok()
+            })
+            .collect();
         // Accessing entries in the order of identifiers should be faster on rotational drives
         Self::sort_dir_entries_by_inode(&mut entries);
         entries
